@@ -133,11 +133,52 @@ def run_scratch(seed, pids, tier):
             rc, out, err = sh([os.path.join(VERIF, 'check'), pid, '--tier', tier], cwd=VERIF, env=env, timeout=7200)
             lines = [ln for ln in out.splitlines() if ln.startswith(('VIOLATION', 'INCONCLUSIVE', 'HELD'))]
             viol = [ln for ln in out.splitlines() if ln.startswith('  C') or ln.startswith('  unclassified')]
-            results[pid] = rc
+            results[pid] = (rc, (viol or lines or [''])[0])
             print(f'{seed} vs {pid} [{tier}, scratch copy]: rc={rc} {"CAUGHT" if rc == 1 else ("MISSED" if rc == 0 else "INCONCLUSIVE")} '
                   f'{time.time() - t0:.0f}s :: {(viol or lines or [""])[0][:300]}', flush=True)
     finally:
         shutil.rmtree(td, ignore_errors=True)
+    _record(d, results, tier, 'scratch copy of /repo/Python with the patch applied (VERIF_REPO)')
+    return 0
+
+
+def _record(d, results, tier, how):
+    mfn = os.path.join(d, 'meta.json')
+    if os.path.isfile(mfn):
+        meta = json.load(open(mfn, encoding='utf-8'))
+        head = sh(['git', '-C', '/repo', 'rev-parse', '--short', 'HEAD'])[1].strip()
+        vhead = sh(['git', '-C', VERIF, 'rev-parse', '--short', 'HEAD'])[1].strip()
+        for p, r in results.items():
+            meta.setdefault('check_results', {})[f'{p}:{tier}'] = {
+                'verdict': 'caught' if r[0] == 1 else 'missed' if r[0] == 0 else 'inconclusive', 'first_report': r[1][:300],
+                'how': how, 'repo_head': head, 'verif_head': vhead,
+            }
+        json.dump(meta, open(mfn, 'wt', encoding='utf-8'), indent=1)
+
+
+def table():
+    rows = ['| seed | property | what it needs to manifest (agent notes, first lines) | own check, quick tier |', '|---|---|---|---|']
+    for seed in sorted(os.listdir(SEEDED)):
+        mfn = os.path.join(SEEDED, seed, 'meta.json')
+        if not os.path.isfile(mfn):
+            continue
+        meta = json.load(open(mfn, encoding='utf-8'))
+        notes = ''
+        nfn = os.path.join(SEEDED, seed, 'notes.md')
+        if os.path.isfile(nfn):
+            txt = [ln.strip() for ln in open(nfn, encoding='utf-8').read().splitlines() if ln.strip() and not ln.startswith('#')]
+            notes = ' '.join(txt)[:260].replace('|', '/')
+        res = meta.get('check_results', {})
+        own = res.get(f'{meta["property"]}:quick')
+        cell = '-'
+        if isinstance(own, dict):
+            cell = f'**{own["verdict"]}** - {own["first_report"][:160].replace("|", "/")}'
+        elif own:
+            cell = f'**{own}**'
+        rows.append(f'| {seed} | {meta["property"]} | {notes} | {cell} |')
+    out = '# Seeded changes and the checks that catch them\n\n' + '\n'.join(rows) + '\n'
+    open(os.path.join(SEEDED, 'RESULTS.md'), 'wt', encoding='utf-8').write(out)
+    print(out)
     return 0
 
 
@@ -185,6 +226,13 @@ def main():
         seed = a[1]
         pids = a[2:] or [seed.split('-')[0]]
         return (run if a[0] == 'run' else run_scratch)(seed, pids, tier)
+    if a[0] == 'table':
+        return table()
+    if a[0] == 'sweep':
+        for seed in sorted(os.listdir(SEEDED)):
+            if os.path.isfile(os.path.join(SEEDED, seed, 'patch.diff')):
+                run_scratch(seed, [seed.split('-')[0]], tier)
+        return table()
     if a[0] == 'runall':
         for seed in sorted(os.listdir(SEEDED)):
             if os.path.isfile(os.path.join(SEEDED, seed, 'patch.diff')):
